@@ -184,7 +184,7 @@ Snapshot(needVals) ==
    why |-> img.why, levels |-> img.levels, vals |-> img.vals,
    leaked |-> Cardinality(Leaked(img.reach)),
    lens |-> [b \in 1..Len(blocks) |-> blocks[b].len],
-   pre |-> [b \in 1..C.npre |-> blocks[b].data],
+   pre |-> [b \in 1..C.npre |-> blocks[b].data], ct |-> content,
    ret |-> IF "$ret" \in DOMAIN env THEN env["$ret"] ELSE 0]
 
 --------------------------------------------------------------------------
@@ -283,7 +283,7 @@ Observe ==
   /\ Scripted("observe")
   /\ snaps' = Append(snaps, [steps |-> 0, iters |-> 0, acc |-> [r |-> {}, w |-> {}], why |-> "",
                              levels |-> C.obs[Op.k].levels, vals |-> C.obs[Op.k].vals, leaked |-> 0,
-                             lens |-> <<>>, pre |-> <<>>, ret |-> 0])
+                             lens |-> <<>>, pre |-> <<>>, ct |-> content, ret |-> 0])
   /\ Advance
   /\ UNCHANGED <<mvars, case, content, dimset, fin>>
 
@@ -313,13 +313,14 @@ Canonical(sn) == IF sn.why # "" THEN "unreadable-" \o sn.why ELSE FirstDefect(sn
 Coords == TA!TargetCoords(C.asg, Dims)
 
 \* C01: decoded output = denotation; absent = 0; nothing stored outside the dimensions
-Meaning(sn) ==
+MeaningC(sn, ct) ==
   LET got == S!Decode(OutSt(sn), OFmt, ODims) IN
   IF \E p \in got : p[1] \notin Coords THEN "stored-out-of-range"
   ELSE IF \A c \in Coords :
-            LET v == TA!DenoteAt(C.asg, c, content, Dims) IN
+            LET v == TA!DenoteAt(C.asg, c, ct, Dims) IN
             IF \E p \in got : p[1] = c THEN (CHOOSE p \in got : p[1] = c)[2] = v ELSE v = DZero
        THEN "" ELSE "wrong-value"
+Meaning(sn) == MeaningC(sn, content)
 
 \* C03: per compressed level, every stored prefix is the prefix of a supported coordinate
 NoPhantom(sn) ==
@@ -349,6 +350,9 @@ VHistory ==
                 ELSE IF a.levels # e.levels THEN "assemble-structure-differs"
                 ELSE IF c.levels # e.levels THEN "compute-changed-structure"
                 ELSE IF c.vals # e.vals THEN "compute-values-differ"
+                ELSE IF Canonical(e) # "" THEN "not-canonical"
+                ELSE IF \E i \in 3..Len(snaps) : snaps[i].why = "" /\ snaps[i].levels = e.levels
+                                                  /\ MeaningC(snaps[i], snaps[i].ct) # "" THEN "recompute-wrong-value"
                 ELSE IF \E i \in 4..Len(snaps) : snaps[i].why # "" \/ snaps[i].levels # e.levels THEN "recompute-changed-structure"
                 ELSE IF \E i \in 3..Len(snaps) : snaps[i].lens # a.lens THEN "compute-reallocated"
                 ELSE IF \E i \in 3..Len(snaps) : snaps[i].leaked > 0 THEN "compute-leaked"
@@ -357,7 +361,10 @@ VHistory ==
 
 \* C16.  snaps: 1 = base dimensions, 2.. = enlarged sparse-only dimension
 VScale ==
-  IF Faulted THEN [c16 |-> "fault-" \o status, base |-> 0, scaled |-> 0]
+  IF ~TA!SparseOnlyIndex(C.asg, Target, [nm \in NameSet |-> Fmt(nm)], C.scaled)
+  THEN [c16 |-> "not-applicable", base |-> 0, scaled |-> 0]
+  ELSE IF Faulted THEN [c16 |-> IF Len(snaps) >= 1 /\ status = "step-budget" THEN "work-depends-on-dimension"
+                                ELSE "fault-" \o status, base |-> 0, scaled |-> 0]
   ELSE [c16 |-> IF \A i \in 2..Len(snaps) : snaps[i].iters = snaps[1].iters /\ snaps[i].steps = snaps[1].steps
                 THEN "ok" ELSE "work-depends-on-dimension",
         base |-> snaps[1].steps, scaled |-> snaps[Len(snaps)].steps]
@@ -391,6 +398,7 @@ Line == [case |-> C.id, status |-> status, steps |-> steps, iters |-> iters, pha
          packed |-> IF C.emit THEN PackedInputs ELSE <<>>,
          out |-> IF C.emit THEN LastOut ELSE <<>>,
          ret |-> IF Len(snaps) = 0 THEN 0 ELSE snaps[Len(snaps)].ret,
+         nzsnaps |-> Cardinality({i \in 1..Len(snaps) : \E j \in 1..Len(snaps[i].vals) : snaps[i].vals[j] # DZero}),
          final |-> IF C.emitraw /\ Len(snaps) > 0 THEN snaps[Len(snaps)].pre ELSE <<>>]
 
 Report == ~fin \/ PrintT("@@" \o ToJson(Line))
